@@ -1,15 +1,18 @@
 #!/bin/bash
+# tools/eval_seeded.sh [jobs] [name-regex]  — (with a regex only the matching changes are evaluated
+# and their lines replaced in RESULTS.tsv)
 # tools/eval_seeded.sh [jobs]  — applies every seeded/<name>/patch.diff in scratch worktrees of
 # /repo (never /repo itself), runs the quick tier of the change's own property through VERIF_REPO
 # and records the outcome in seeded/<name>/result.json and seeded/RESULTS.tsv.
 cd "$(dirname "$(readlink -f "$0")")/.."
 jobs=${1:-4}
+filter=${2:-.}
 base=/tmp/evseed
 mkdir -p $base
 for j in $(seq 1 $jobs); do
   [ -d $base/w$j ] || git -C /repo worktree add -q --detach $base/w$j HEAD
 done
-ls -d seeded/*/ | sed 's#/$##' > $base/list
+ls -d seeded/*/ | sed 's#/$##' | grep -E "$filter" > $base/list
 run_one() {
   j=$1; name=$2; wt=$base/w$j
   id=$(basename $name | cut -d- -f1)
@@ -36,7 +39,6 @@ PY
   git -C $wt checkout -q -- .
 }
 export -f run_one; export base
-: > seeded/RESULTS.tsv
 i=0
 while read name; do
   j=$(( i % jobs + 1 )); i=$((i+1))
@@ -46,7 +48,11 @@ for j in $(seq 1 $jobs); do
   ( grep "^$j " $base/assign | while read jj name; do run_one $jj $name; done > $base/out$j.tsv ) &
 done
 wait
-cat $base/out*.tsv | sort > seeded/RESULTS.tsv
+touch seeded/RESULTS.tsv
+cut -f1 $base/out*.tsv | sort -u > $base/done
+grep -v -x -F -f $base/done <(cut -f1 seeded/RESULTS.tsv) > $base/keep || true
+{ grep -F -f <(sed 's/$/\t/' $base/keep) seeded/RESULTS.tsv | grep -v -F -f <(sed 's/$/\t/' $base/done) ; cat $base/out*.tsv; } | sort -u > $base/merged
+cp $base/merged seeded/RESULTS.tsv
 for j in $(seq 1 $jobs); do git -C /repo worktree remove --force $base/w$j; done
 rm -rf $base target-_tmp_evseed_w* target-mock-_tmp_evseed_w*
 doc=0; for n in $(grep 'exit=0' seeded/RESULTS.tsv | cut -f1); do grep -q '"not_reached"' seeded/$n/meta.json && doc=$((doc+1)); done
